@@ -199,7 +199,8 @@ func verifC01_flate_e2e() {
 		} else {
 			w, err := snd.Writer(vBG, typ)
 			vAssert(err == nil, "C01.flate.writer-noerr")
-			cut := len(doc) / (1 + vChoose("cutAt", 3))
+			// first chunk: everything, half, a few bytes (below the threshold: the decision must not be revisited), nothing
+			cut := []int{len(doc), len(doc) / 2, 3, 0}[vChoose("cutAt", 4)]
 			if cut > len(doc) {
 				cut = len(doc)
 			}
